@@ -24,6 +24,7 @@ import Mathlib.Algebra.Group.Submonoid.Basic
 namespace Ark.PairingP
 open Ark Ark.Ext Ark.Pairing Ark.ExtB
 set_option linter.unusedSectionVars false
+set_option linter.style.haveILetI false
 
 /-! ## `Outcome` plumbing -/
 
@@ -723,7 +724,7 @@ theorem Bw6.chunkLoop2_mul (E : Bw6 P F T) (hS : SparseLawful E.S) (L : TargetLa
       simp only [obind_ok]
       exact ih _ _ _ _ _ _ _ _ ha hb
     · by_cases h2 : bit = -1
-      · simp only [h1, h2, if_true, if_false] at ha hb ⊢
+      · simp only [h2, if_true] at ha hb ⊢
         obtain ⟨⟨a2, as2⟩, ha2, ha⟩ := obind_eq_ok.1 ha
         obtain ⟨⟨b2, bs2⟩, hb2, hb⟩ := obind_eq_ok.1 hb
         rw [mul_mul_mul_comm a1 b1 u1' u2', hE _ _ _ _ _ _ _ _ ha2 hb2]
@@ -975,5 +976,74 @@ theorem Bw6.multi_prod (l : List (Aff F × Bw6G2Prepared F × T)) (v : T)
   exact (Outcome.ok.inj h').symm
 
 end bw6
+
+/-! ## MNT4 / MNT6 (Miller loop) -/
+
+section mnt
+variable {P F G : Type} [Zero F] [DecidableEq F] [Field G] [DecidableEq G]
+  (cfg : QuadCfg G) (B : FieldD P G) (hB : BaseLawful B) (hc : QuadLawful cfg)
+
+/-- the kept pairs -/
+def Mnt.keep (z : MntG1Prepared F G × MntG2Prepared G) : Bool :=
+  !Mnt.g1IsZero z.1 && !Mnt.g2IsZero z.2
+
+/-- `multi_miller_loop` after `zip_eq`: by unfolding, the product of `ate_miller_loop` over the kept
+    pairs -/
+theorem Mnt.multi_eq [Mul (Quad G)] (E : Mnt P F G) (a : List (MntG1Prepared F G))
+    (b : List (MntG2Prepared G)) :
+    Mnt.multiMillerLoopPrepared E a b =
+      obind (zipEq a b) fun zs =>
+      obind (mapO (fun z => Mnt.ateMillerLoop E z.1 z.2) (zs.filter Mnt.keep)) fun fs =>
+      .ok (product fs) := rfl
+
+/-- the part after `zip_eq` -/
+def Mnt.core [Mul (Quad G)] (E : Mnt P F G) (kept : List (MntG1Prepared F G × MntG2Prepared G)) :
+    Outcome (Quad G) :=
+  obind (mapO (fun z => Mnt.ateMillerLoop E z.1 z.2) kept) fun fs => .ok (product fs)
+
+theorem Mnt.core_nil :
+    letI := Quad.commRing cfg B hB hc
+    ∀ E : Mnt P F G, Mnt.core E [] = .ok 1 := by
+  intro E
+  rfl
+
+theorem Mnt.core_append :
+    letI := Quad.commRing cfg B hB hc
+    ∀ (E : Mnt P F G) (k1 k2 : List (MntG1Prepared F G × MntG2Prepared G)) (v1 v2 : Quad G),
+      Mnt.core E k1 = .ok v1 → Mnt.core E k2 = .ok v2 → Mnt.core E (k1 ++ k2) = .ok (v1 * v2) := by
+  letI := Quad.commRing cfg B hB hc
+  intro E k1 k2 v1 v2 h1 h2
+  unfold Mnt.core at h1 h2 ⊢
+  obtain ⟨fs1, ha, h1⟩ := obind_eq_ok.1 h1
+  obtain ⟨fs2, hb, h2⟩ := obind_eq_ok.1 h2
+  simp only [Outcome.ok.injEq] at h1 h2
+  rw [mapO_append, ha, hb]
+  simp only [obind_ok, Outcome.ok.injEq]
+  rw [← h1, ← h2, product_eq_prod, product_eq_prod, product_eq_prod, List.prod_append]
+
+/-- multi Miller loop = product of the single Miller loops (MNT4 / MNT6) -/
+theorem Mnt.multi_prod :
+    letI := Quad.commRing cfg B hB hc
+    ∀ (E : Mnt P F G) (l : List (MntG1Prepared F G × MntG2Prepared G × Quad G)) (v : Quad G),
+      Mnt.multiMillerLoopPrepared E (l.map (·.1)) (l.map (·.2.1)) = .ok v →
+      (∀ t ∈ l, Mnt.multiMillerLoopPrepared E [t.1] [t.2.1] = .ok t.2.2) →
+      v = (l.map (·.2.2)).prod := by
+  letI := Quad.commRing cfg B hB hc
+  intro E l v h hl
+  rw [Mnt.multi_eq, zipEq_map] at h
+  simp only [obind_ok] at h
+  rw [filter_eq_flatMap] at h
+  have := core_prod (Mnt.core E) (fun z => [z].filter Mnt.keep) (Mnt.core_nil cfg B hB hc E)
+    (Mnt.core_append cfg B hB hc E) l (by
+      intro t ht
+      have := hl t ht
+      rw [Mnt.multi_eq] at this
+      simp only [zipEq, obind_ok] at this
+      exact this)
+  unfold Mnt.core at this
+  rw [this] at h
+  exact (Outcome.ok.inj h).symm
+
+end mnt
 
 end Ark.PairingP
